@@ -88,6 +88,12 @@ def gen_case(rng, i, tier, force=None):
             lines.append("restart")
         else:
             lines.append("halfrate %d" % rng.randint(0, 1))
+    if rng.random() < 0.5:
+        # the exported functions whose bodies the translator re-emits: the library's compiled code against the GENERATED Lean on the same arguments
+        for _ in range(4):
+            lines.append("fn ilog %d" % rng.choice([0, 1, 2, 3, 255, 256, 2 ** 31, 2 ** 32 - 1, rng.getrandbits(rng.randint(1, 32))]))
+            ent = rng.choice([0, 1, 2, 15, 16, 17, 624, 625, 626, 4095, 4096, 6561, 2 ** 24 - 1, rng.randrange(1, 2 ** 24), rng.randrange(1, 5000)])
+            lines.append("fn qv %d %d" % (ent, rng.choice([1, 2, 2, 3, 4, 5, 8, 16, 24, 63, 64, 100, rng.randint(1, 200)])))
     lines.append("clear")
     return lines, tag
 
